@@ -1,6 +1,6 @@
 (** Correspondence driver for C18.  Cases are written by harness/c18.go and carry the inputs AND
     what the implementation (goatcore, or the real /bin/sh for the model-validation cases) did.
-      CKey / CSetAll   envs.Environments.Set / SetAll           vs  env_set / env_set_all
+      CKey(s) / CSetAll  envs.Environments.Set / SetAll         vs  env_set / env_set_all
       CSsh / CDcmd*    the bytes of the generated start-up script vs  ssh_script / dcmd_script
                        (the environment order - and for dcmd's certificate block the random tag - are parsed out of the script by
                         the harness and handed to the model; the WHOLE script is compared)
@@ -17,6 +17,8 @@ Inductive shres :=
 Inductive case :=
 | CKey (k : bytes) (accepted : bool)
     (* Set(k, "x") on a fresh Environments returned nil *)
+| CKeys (l : list (bytes * bool))
+    (* many CKey observations in one case (the name sweep over every byte value) *)
 | CSetAll (pre kvs : env) (ok : bool) (all : env)
     (* after Set of every pair of [pre] (all valid): SetAll(kvs) returned nil = [ok]; All() afterwards *)
 | CSsh (e : env) (entry script : bytes) (r : shres)
@@ -53,14 +55,17 @@ Definition check_sh (script : bytes) (r : shres) : bool :=
     end
   end.
 
+Definition check_key (k : bytes) (accepted : bool) : bool :=
+  Bool.eqb (valid_key k) accepted &&
+  match env_set [] k [120] with
+  | Ok m => accepted && same_map m [(k, [120])]
+  | _ => negb accepted
+  end.
+
 Definition check (c : case) : bool :=
   match c with
-  | CKey k accepted =>
-    Bool.eqb (valid_key k) accepted &&
-    match env_set [] k [120] with
-    | Ok m => accepted && same_map m [(k, [120])]
-    | _ => negb accepted
-    end
+  | CKey k accepted => check_key k accepted
+  | CKeys l => forallb (fun kb => check_key (fst kb) (snd kb)) l
   | CSetAll pre kvs ok all =>
     let m0 := put_all pre [] in
     match env_set_all m0 kvs with
